@@ -1,5 +1,6 @@
 """C12 — dynamic metaclasses and their instances follow metamodel edits (DESIGN.md section 4)."""
 import itertools
+import keyword
 from . import common
 
 
@@ -23,8 +24,12 @@ def declared_features(c):
     return out
 
 
-def observe(classes, instances, removed_names, E, EcoreUtils):
-    """-> first problem or None.  instances: list of (object, class)"""
+TYPE_DEFAULT = {'EString': None, 'EInt': 0, 'EBoolean': False, 'EIntegerObject': None, 'EBooleanObject': None,
+                'EDoubleObject': None, 'EDouble': 0.0}
+
+
+def observe(classes, instances, removed_names, E, EcoreUtils, declared=None):
+    """-> first problem or None.  instances: list of (object, class); declared: feature name -> default as written"""
     for (o, c) in instances:
         feats = declared_features(c)
         names = {f.name for f in feats}
@@ -43,7 +48,10 @@ def observe(classes, instances, removed_names, E, EcoreUtils):
                 return ('stale-holder', f'{c.name} instance .{f.name} reads a raw {type(v).__name__}')
             if not f.many and isinstance(f, E.EAttribute) and not o.eIsSet(f):
                 want = f.get_default_value()
-                if v != want:
+                if declared is not None and f.name in declared:
+                    # the default as it was declared (explicit, else the type's), not what the library now says it is
+                    want = declared[f.name]
+                if v != want or type(v) is not type(want):
                     return ('default', f'{c.name} instance .{f.name} reads {v!r}, default {want!r}')
         for n in removed_names:
             if n in names:
@@ -103,14 +111,26 @@ def run_case(ctx, h, nedits, lines=None, reals=None):
     log = []
     counter = [0]
     removed = set()
+    opnum = {}
+
+    declared = {}
 
     def new_feature():
         counter[0] += 1
         k = rng.random()
-        if k < .4:
-            return E.EAttribute(f'a{counter[0]}', rng.choice([E.EString, E.EInt, E.EBoolean]), upper=rng.choice([1, 1, -1]))
+        nm = f'a{counter[0]}'
+        if k < .3:
+            t = rng.choice([E.EString, E.EInt, E.EBoolean])
+            many = rng.choice([False, False, True])
+            if not many:
+                declared[nm] = TYPE_DEFAULT[t.name]
+            return E.EAttribute(nm, t, upper=-1 if many else 1)
         if k < .5:
-            return E.EAttribute(f'a{counter[0]}', E.EInt, default_value=rng.choice([3, 0]))
+            # explicit defaults, falsy ones included, also where the type's own default is something else
+            t, dv = rng.choice([(E.EInt, 3), (E.EInt, 0), (E.EString, ''), (E.EString, 'dflt'), (E.EIntegerObject, 0), (E.EIntegerObject, 5),
+                                (E.EBooleanObject, False), (E.EBoolean, True), (E.EDoubleObject, 0.0)])
+            declared[nm] = dv
+            return E.EAttribute(nm, t, default_value=dv)
         return E.EReference(f'r{counter[0]}', rng.choice(classes), upper=rng.choice([1, -1]), containment=rng.random() < .3)
     problem = None
     for step in range(nedits):
@@ -135,11 +155,31 @@ def run_case(ctx, h, nedits, lines=None, reals=None):
                     names.append(f.name); emit(f'addfeat {ci} {f.name[1:]}', compare=(n_ == len(fs_) - 1))
             elif k < .22:
                 counter[0] += 1
-                op = E.EOperation(f'op{counter[0]}'); c.eOperations.append(op); log.append(f'{c.name}.addop {op.name}')
-                names.append(op.name); emit(f'addop {ci} {counter[0]}')
+                live = {o_.name for k_ in classes for o_ in k_.eOperations}
+                kw = rng.choice(['class', 'from', 'import', 'pass'])
+                oname = kw if (rng.random() < .3 and kw not in live) else f'op{counter[0]}'
+                op = E.EOperation(oname); c.eOperations.append(op); log.append(f'{c.name}.addop {op.name}')
+                mname = oname + '_' if keyword.iskeyword(oname) else oname
+                if mname not in opnum:
+                    opnum[mname] = 1000 + len(opnum)
+                    names.append(mname)
+                emit(f'addop {ci} {opnum[mname]}')
             elif k < .25 and len(c.eOperations):
-                op = rng.choice(list(c.eOperations)); c.eOperations.remove(op); log.append(f'{c.name}.removeop {op.name}')
-                emit(f'removeop {ci} {op.name[2:]}')
+                how = rng.choice(['remove', 'pop', 'clear'])
+                cur = list(c.eOperations)
+                op = rng.choice(cur)
+                gone = [op]
+                if how == 'remove':
+                    c.eOperations.remove(op)
+                elif how == 'pop':
+                    c.eOperations.pop(cur.index(op))
+                else:
+                    gone = cur
+                    c.eOperations.clear()
+                log.append(f'{c.name}.removeop({how}) {[x.name for x in gone]}')
+                for n_, x in enumerate(gone):
+                    mname = x.name + '_' if keyword.iskeyword(x.name) else x.name
+                    emit(f'removeop {ci} {opnum[mname]}', compare=(n_ == len(gone) - 1))
             elif k < .38 and len(c.eStructuralFeatures):
                 how = rng.choice(['remove', 'remove', 'pop', 'del', 'clear'])
                 cur = list(c.eStructuralFeatures)
@@ -215,7 +255,7 @@ def run_case(ctx, h, nedits, lines=None, reals=None):
         ctx.evaluations += 1
         ctx.count('edit/' + log[-1].split()[0].split('.')[-1].split('(')[0] + ('/' + log[-1].split('(')[1].split(')')[0] if '(' in log[-1].split()[0] else ''))
         try:
-            problem = observe(classes, instances, removed, E, EcoreUtils)
+            problem = observe(classes, instances, removed, E, EcoreUtils, declared)
         except Exception as e:
             problem = ('observe-raised', f'{type(e).__name__}: {str(e)[:120]}')
         if problem:
